@@ -41,3 +41,25 @@ Definition sm3_from_state_spec (st : list N) (nblocks : N) (m : list N) : list N
   let total := (nblocks * 64 + N.of_nat (length m))%N in
   let p := m ++ [128%N] ++ zeros (padz 64 8 (length m)) ++ len64_spec total in
   sm3_out (foldn (list N) sm3_compress 64 (length p / 64) st p).
+
+(* Generic "continue from an installed (chaining state, block counter)" for the public
+   context structs of every digest: Impl = the streaming code started from that state,
+   Spec = the standard's padding for a message whose first [nblocks] blocks have
+   already been compressed into [st]. *)
+Definition from_state_impl (compress : list N -> list N -> list N) (out : list N -> list N)
+    (B LB : nat) (len_impl : N -> nat -> list N) (st : list N) (nblocks : N)
+    (chunks : list (list N)) : list N :=
+  finish (list N) compress out B LB len_impl
+    (fold_left (update (list N) compress B) chunks (mk (list N) st nblocks [])).
+Definition from_state_spec (compress : list N -> list N -> list N) (out : list N -> list N)
+    (B LB : nat) (len_spec : N -> list N) (st : list N) (nblocks : N) (m : list N) : list N :=
+  let total := (nblocks * N.of_nat B + N.of_nat (length m))%N in
+  let p := m ++ [128%N] ++ zeros (padz B LB (length m)) ++ len_spec total in
+  out (foldn (list N) compress B (length p / B) st p).
+
+Definition sha1_from_state := from_state_impl sha1_compress sha256_out 64 8 len64_impl.
+Definition sha1_from_state_spec := from_state_spec sha1_compress sha256_out 64 8 len64_spec.
+Definition sha256_from_state := from_state_impl sha256_compress sha256_out 64 8 len64_impl.
+Definition sha256_from_state_spec := from_state_spec sha256_compress sha256_out 64 8 len64_spec.
+Definition sha512_from_state := from_state_impl sha512_compress sha512_out 128 16 len128_impl.
+Definition sha512_from_state_spec := from_state_spec sha512_compress sha512_out 128 16 len128_spec.
